@@ -473,7 +473,17 @@ func PgTerm(pgno uint32, data []byte) string {
 }
 func (r *Rec) Write(pgno uint32, data []byte) { r.add("OWrite %d %s", pgno, PgTerm(pgno, data)) }
 func (r *Rec) Truncate(n uint32)              { r.add("OTruncate %d", n) }
-func (r *Rec) CommitJournal(commit uint32)    { r.add("OCommitJournal %d", commit) }
+
+// ZeroFill: a page below one written further on that nobody wrote - zeros put there by the file system.
+func (r *Rec) ZeroFill(pgno uint32, data []byte) { r.add("OZeroFill %d %s", pgno, PgTerm(pgno, data)) }
+
+func b2u(b bool) uint32 {
+	if b {
+		return 1
+	}
+	return 0
+}
+func (r *Rec) CommitJournal(commit uint32) { r.add("OCommitJournal %d", commit) }
 
 // CommitJournalFailed: the commit recorded last was attempted and refused (the journal could not be finalised).
 func (r *Rec) CommitJournalFailed() {
@@ -757,6 +767,15 @@ func (p *Pager) RunRollbackTx(prev *Image, tx Tx, jm JournalMode, outcome Rollba
 	}
 	SetHeader(p1, ps, tx.NewSize, tx.Wal)
 	writes[1] = p1
+	// SQLite does not write every page of a database that grows: a page allocated and freed again within the
+	// transaction (a free-list leaf, PGHDR_DONT_WRITE) is left out.  When that leaves the file shorter than the
+	// database, the pager writes a page of zeros at the end (pager.c sqlite3PagerCommitPhaseOne -> pager_truncate);
+	// whatever lies between is filled with zeros by the file system and never passes through LiteFS.
+	if last := tx.NewSize - b2u(tx.NewSize == LockPgno(ps)); outcome == Commit && last > uint32(len(prev.Pages)) {
+		if _, ok := writes[last]; !ok {
+			writes[last] = make([]byte, ps)
+		}
+	}
 	maxWritten := uint32(len(prev.Pages))
 	for _, pg := range sortedPgnos(tx.Spill) {
 		if err := db.WriteDatabaseAt(ctx, dbf, tx.Spill[pg], int64(pg-1)*int64(ps), o); err != nil {
@@ -779,6 +798,13 @@ func (p *Pager) RunRollbackTx(prev *Image, tx Tx, jm JournalMode, outcome Rollba
 			return fmt.Errorf("write page %d: %w", pg, err)
 		}
 		p.Rec.Write(pg, writes[pg])
+	}
+	if outcome == Commit {
+		for pg := uint32(len(prev.Pages)) + 1; pg <= tx.NewSize; pg++ {
+			if _, ok := writes[pg]; !ok {
+				p.Rec.ZeroFill(pg, make([]byte, ps))
+			}
+		}
 	}
 	_ = db.SyncDatabase(ctx)
 	p.LastRecs = recs
